@@ -299,6 +299,35 @@ Proof.
   intros HS HB Ns Nb. apply roundtrip_carved; [exact (parsed_c10_good s S HS Ns)|exact (parsed_c10_good b B HB Nb)].
 Qed.
 
+(* the cases in which the reference is (a copy of) the source: the text comes back as it is *)
+Theorem roundtrip_parsed_copy m s b S B : parse s = POk S -> parse b = POk B ->
+  scheme S <> None -> scheme B <> None ->
+  range_eqb (scheme S) (scheme B) = false
+  \/ (equals_authority S B = false /\ is_host_set S = false /\ is_host_set B = true) ->
+  forallb nodot (pathSegs S) = true ->
+  let r := snd (remove_base m S B) in
+  fst (add_base false r B) = URI_SUCCESS
+  /\ to_text (snd (add_base false r B)) = Spec.Recompose.canon_ip6 s.
+Proof.
+  intros HS HB Hs Hb Hc Hn. cbv zeta.
+  destruct (roundtrip_copy m S B Hs Hb Hc Hn (parsed_wf s S HS) (parsed_not_lone s S HS) (parsed_one_kind s S HS))
+    as [A E].
+  split; [exact A|]. rewrite <- (parsed_to_text s S HS). exact (CommuteText.to_text_components _ _ E).
+Qed.
+
+Theorem roundtrip_parsed_other_authority m s b S B : parse s = POk S -> parse b = POk B ->
+  scheme S <> None -> scheme B <> None ->
+  range_eqb (scheme S) (scheme B) = true -> equals_authority S B = false -> is_host_set S = true ->
+  forallb nodot (pathSegs S) = true ->
+  let r := snd (remove_base m S B) in
+  fst (add_base false r B) = URI_SUCCESS
+  /\ to_text (snd (add_base false r B)) = Spec.Recompose.canon_ip6 s.
+Proof.
+  intros HS HB Hs Hb He Ha Hh Hn. cbv zeta.
+  destruct (roundtrip_other_authority m S B Hs Hb He Ha Hh Hn (parsed_wf s S HS) (parsed_one_kind s S HS)) as [A E].
+  split; [exact A|]. rewrite <- (parsed_to_text s S HS). exact (CommuteText.to_text_components _ _ E).
+Qed.
+
 (* ================================================================ 6. witnesses *)
 Local Open Scope string_scope.
 
